@@ -5,7 +5,7 @@ CONSTANTS
   Pools = {{1, 2, 3}, {1, 2}, {3}, {2, 3}}
   MinL = 2
   MaxL = 4
-  KnownC09 = TRUE
+  KnownC09 = FALSE
 VIEW View
 INVARIANT TypeOK
 PROPERTIES P01 P09 P10 P13
